@@ -2869,6 +2869,17 @@ def transform_compressible(items, constants, labels):
             new_items.append(item)
             continue
 
+        # a compression decision is final, but an immediate that depends on labels can still change
+        # (labels only settle once every later item has its final size). only plain offsets are safe
+        # to decide on early, since later passes can only move them towards zero.
+        if hasattr(item, 'imm') and not isinstance(item.imm, Offset):
+            try:
+                item.imm.eval(position, constants, item.line)
+            except AssemblerError:
+                position += item.size()
+                new_items.append(item)
+                continue
+
         # check if any set of criteria is all true for this item
         compressed = None
         try:
